@@ -271,6 +271,8 @@ fn sample_and_expire_batch(store: &Arc<FeoxStore>, config: &TtlConfig) -> (u64, 
         if ttl_expiry > 0 && ttl_expiry < now {
             #[cfg(test)]
             crate::test_hooks::pause_at(crate::test_hooks::TTL_AFTER_EXPIRED_SAMPLE);
+            #[cfg(feoxdb_verif)]
+            crate::verif::yield_point("ttl_after_expired_sample");
 
             let old_value_len = record.value_len;
             let record_size = record.calculate_size();
@@ -294,6 +296,8 @@ fn sample_and_expire_batch(store: &Arc<FeoxStore>, config: &TtlConfig) -> (u64, 
             };
 
             if retired {
+                #[cfg(feoxdb_verif)]
+                crate::verif::yield_point("sweep.before_uncache");
                 store.remove_cached(&key, &record);
                 store.note_expired_record(record_size);
                 expired += 1;
